@@ -131,6 +131,7 @@ type CoreRun struct {
 	w        *riga.World
 	r        *riga.Rig
 	opt      riga.Options
+	markerV2 bool       // snapshot markers carry the version-2 fields (max visible / high completed seqno)
 	wire     [][]WireEv // per Go vb: what the server still has to send on the current stream (resends)
 	slog     [][]WireEv // per Go vb: the server's history
 	fo       []uint64
@@ -218,6 +219,12 @@ func NewCoreRun(sch *Schedule) *CoreRun {
 	if b, _ := sch.Cfg["ReadOnly"].(bool); b {
 		c.opt.ReadOnly = true
 	}
+	if b, _ := sch.Cfg["HoldCb"].(bool); b {
+		c.opt.HoldCb = true
+	}
+	if b, _ := sch.Cfg["MarkerV2"].(bool); b {
+		c.markerV2 = true // (a rig option: snapshot markers carry the version-2 fields)
+	}
 	if m, _ := sch.Cfg["MetaCollection"].(string); m != "" {
 		c.opt.MetaCollection = m // (a rig option: the connector's checkpoints configured into a collection of their own)
 	}
@@ -273,7 +280,12 @@ func (c *CoreRun) push(vb int, x WireEv) {
 	key := []byte(riga.KeyOfClass[x.Key])
 	switch x.K {
 	case "mark":
-		ob.SnapshotMarker(models.DcpSnapshotMarker{VbID: uint16(vb), StartSeqNo: uint64(x.S), EndSeqNo: uint64(x.E)})
+		mk := models.DcpSnapshotMarker{VbID: uint16(vb), StartSeqNo: uint64(x.S), EndSeqNo: uint64(x.E)}
+		if c.markerV2 {
+			// a version-2 marker: the fields the library has no use for are filled in (a snapshot whose tail is not yet visible)
+			mk.MaxVisibleSeqNo, mk.HighCompletedSeqNo = uint64(x.S), uint64(x.S)
+		}
+		ob.SnapshotMarker(mk)
 	case "mut":
 		ob.Mutation(gocbcore.DcpMutation{VbID: uint16(vb), SeqNo: uint64(x.Q), Key: key, Cas: c.cas(x.Old), Value: []byte("v")})
 	case "del":
@@ -637,7 +649,38 @@ func (c *CoreRun) exec(l map[string]any) string {
 				}
 			}
 		}
-	case "RbLock":
+	case "NotifyLate":
+		// a membership change published while / after dcp.close closes the stream (the numbering in effect, once more)
+		m := &membership.Model{MemberNumber: c.r.Opt.Member, TotalMembers: c.r.Opt.Total}
+		c.r.S.Emit(Ev{"ev": "NotifyLate"})
+		bus := c.r.Bus
+		done := make(chan struct{})
+		go func() {
+			bus.Publish(helpers.MembershipChangedBusEventName, m)
+			bus.WaitAsync()
+			close(done)
+		}()
+		n0 := len(c.r.S.Parked())
+		for deadline := time.Now().Add(stepTimeout); time.Now().Before(deadline); {
+			select {
+			case <-done:
+				deadline = time.Now()
+			default:
+				if len(c.r.S.Parked()) > n0 {
+					deadline = time.Now()
+				} else {
+					time.Sleep(200 * time.Microsecond)
+				}
+			}
+		}
+	case "CbRet":
+		th := c.parkedLike("lib:cb.hold")
+		if th == "" || !c.r.S.Release(th, nil) {
+			return "no handler is held"
+		}
+	case "RbAcquire":
+		// (only reached in a diverged run: the thread proceeds by itself)
+	case "RbLock", "RbWait":
 		t := str(l["t"])
 		th := "api"
 		if t != "api" {
@@ -905,7 +948,7 @@ func afterDivergence(l map[string]any) bool {
 	}
 	switch str(l["a"]) {
 	case "LoadRet", "SeqNosRet", "FoLogRet", "OpenRet", "ReopenRet", "CloseRet", "CloseEmpty", "StoreWrite", "SaveRet", "SaveRemark", "SaveTake",
-		"SaveLock", "SaveAcquire", "ConsRet", "Ack", "AckBegin", "AckMark", "TimerFire", "WaitFin", "RbLock", "ScrapeRet", "GateOpen", "StartWind", "Quiesce", "Nop", "Boot":
+		"SaveLock", "SaveAcquire", "ConsRet", "Ack", "AckBegin", "AckMark", "TimerFire", "WaitFin", "RbLock", "RbWait", "RbAcquire", "CbRet", "ScrapeRet", "GateOpen", "StartWind", "Quiesce", "Nop", "Boot":
 		return true
 	case "RmSwitch":
 		on, _ := l["on"].(bool)
@@ -916,7 +959,7 @@ func afterDivergence(l map[string]any) bool {
 
 func autoLabel(l map[string]any) bool {
 	a := str(l["a"])
-	return a == "SaveAcquire" || a == "GateOpen" || (readOnlyRun && a == "SaveRet")
+	return a == "SaveAcquire" || a == "GateOpen" || a == "RbAcquire" || (readOnlyRun && a == "SaveRet")
 }
 
 // OnStep, if set, is told when a step begins and when its trace line is complete.
